@@ -70,10 +70,15 @@ func defaultReturnHandler() ReturnHandler {
 			respVal = respVal.Elem()
 		}
 
+		var body []byte
 		if isByteSlice(respVal) {
-			_, _ = w.Write(respVal.Bytes())
+			body = respVal.Bytes()
 		} else {
-			_, _ = w.Write([]byte(respVal.String()))
+			body = []byte(respVal.String())
 		}
+		if len(body) == 0 {
+			return
+		}
+		_, _ = w.Write(body)
 	}
 }
